@@ -100,7 +100,7 @@ def main():
     rep = Report(PID)
     thorough = tier() == 'thorough'
     obl = []
-    for fam in FAMILIES:
+    for fam in FAMILIES + ['extra']:
         src = open('/verif/spec/Fns_%s.cfg' % fam).read().replace('EmitObl = FALSE', 'EmitObl = TRUE')
         tmp = 'Fns_%s_run%d.cfg' % (fam, os.getpid())
         open(os.path.join('/verif/spec', tmp), 'w').write(src)
@@ -112,6 +112,9 @@ def main():
         part = parse_obl(r['out'])
         if len(part) * 2 != r['distinct']:
             raise MachineryError('Fns %s: %d obligations for %d states' % (fam, len(part), r['distinct']))
+        if fam == 'extra':
+            extra = part
+            continue
         obl.extend(part)
     rnd = random.Random(seed() * 31 + 5)
     rnd.shuffle(obl)
@@ -130,6 +133,23 @@ def main():
                            'how': "Cell('Z90' or a range of the result's shape, formula) with the "
                                   "referenced ranges supplied"})
     rep.traces(len(res))
+    # beyond the list of C12: MAXA MINA AVERAGEA GCD LCM T CODE CHAR FACT MROUND are defined in
+    # FnDef.tla too; they are replayed for information, a disagreement is not a C12 violation
+    xres = []
+    for part in pmap(_shard, shards(extra, NCPU * 2), chunk=1):
+        xres.extend(part)
+    by = {}
+    for fn, formula, inp, ok, want, got, o in xres:
+        e = by.setdefault(fn, {'agree': 0, 'differ': 0, 'examples_of_difference': []})
+        if ok:
+            e['agree'] += 1
+        else:
+            e['differ'] += 1
+            if len(e['examples_of_difference']) < 4:
+                e['examples_of_difference'].append({'formula': formula, 'spec': want, 'code': got})
+    rep.cov['beyond_property'] = {
+        'note': 'functions outside the list of C12, defined in FnDef.tla and replayed for information',
+        'functions': by}
     for fn, formula, inp, ok, want, got, o in res[:6]:
         rep.sample({'formula': formula, 'expected': want})
     rep.cov['rule'] = ('every case of Fns.tla: 17 aggregations x argument lists (directly typed / '
